@@ -10,7 +10,7 @@ from autobean_refactor.models import base as mbase
 CASES = {'quick': 3000, 'thorough': 60000}
 GATES = {
     'quick': {'evaluations': 12000, 'steps_changing_raw_list': 5500, 'ordered_view_pairs': 30, 'families_seen': 6,
-              'read_probes': 100000, 'refusals_matched': 1500, 'meta_mapping_steps': 500},
+              'read_probes': 100000, 'refusals_matched': 1500, 'meta_mapping_steps': 500, 'attribution_steps': 600},
     'thorough': {'evaluations': 400000, 'ordered_view_pairs': 30, 'families_seen': 6},
 }
 RULE = ('case = one accepted generated document; every view of every repeated field is read first (so all incremental index tables '
@@ -207,7 +207,10 @@ def cost_family(col, f):
 
 
 def run_case(col, r, idx):
-    text, f = gen.accepted_document(r, common.parser(), gen.LF_ONLY if idx % 2 else gen.DEFAULT, n=r.randint(1, 5))
+    if idx % 4 == 0:
+        text, f = gen.accepted_layout(r, common.parser())       # comment-rich: lists with several standalone comments
+    else:
+        text, f = gen.accepted_document(r, common.parser(), gen.LF_ONLY if idx % 2 else gen.DEFAULT, n=r.randint(1, 5))
     if f is None:
         col.skip('document rejected by parse')
         return
@@ -231,8 +234,26 @@ def run_case(col, r, idx):
         attr = r.choice([raw_attr] + list(views))
         d = ops.desc_of(type(m), attr)
         k = ops.classify(d)
+        op = None
+        if raw_attr.endswith('_with_comments') and r.random() < (0.4 if sum(isinstance(x, models.BlockComment) for x in getattr(m, raw_attr)) >= 2 else 0.12):
+            # comment attribution also changes the raw list (standalone comments enter or leave it): the views must follow
+            w = getattr(m, raw_attr)
+            own = [x for x in w if isinstance(x, models.BlockComment)]
+            what = r.choice(['unclaim-all', 'unclaim-some', 'claim-all', 'unclaim-then-claim'])
+            if what == 'unclaim-some' and own:
+                sel = r.sample(own, r.randint(1, len(own)))
+                fn = lambda: w.unclaim_interleaving_comments(sel)
+            elif what == 'claim-all':
+                fn = w.claim_interleaving_comments
+            elif what == 'unclaim-then-claim':
+                fn = lambda: (w.unclaim_interleaving_comments(), w.claim_interleaving_comments())
+            else:
+                fn = w.unclaim_interleaving_comments
+            op = ops.Op('claim:' + what, f'{path}.{raw_attr}: {what} ({len(own)} standalone comments)', m, path, lambda: [], fn)
+            attr = raw_attr
+            col.count('attribution_steps')
         try:
-            op = g.build(f, path, m, attr, d, k)
+            op = op or g.build(f, path, m, attr, d, k)
         except (decimal.DecimalException, ZeroDivisionError):
             continue
         if op is None:
